@@ -257,6 +257,11 @@ def check_escaped(res):
         combos.append(({"value.equal_to": {esc: ["b"]}}, L("Value", "equal_to", {plain: ["b"]}), {plain: ["b"]}))
         combos.append(({"value.in": [{esc: ["b"]}, 1]}, L("Value", "in_", [{plain: ["b"]}, 1]), {plain: ["b"]}))
         combos.append(({"value.items_contain": {"q": {esc: ["b"]}}}, L("Value", "items_contain", q={plain: ["b"]}), {"q": {plain: ["b"]}}))
+    # multi-key literal mappings, the escaped key(s) first / in the middle / last, every spelling, every position
+    for term, spec in S.litmap_cases():
+        lit = [a for a in list(term[3]) + [v for _, v in term[4]] if isinstance(a, (dict, list))][0]
+        hit = lit if term[2] in ("equal_to", "not_equal_to", "equal_to_approx") else ([i for i in lit if isinstance(i, dict)][0] if isinstance(lit, list) else {"q": lit, "p": 1})
+        combos.append((spec, term, hit))
     for spec, term, hit in combos:
         res.count("evaluations")
         res.states.add(hash(repr(spec)))
